@@ -1,6 +1,8 @@
 package checks
 
 import (
+	"os"
+	"strconv"
 	"fmt"
 	"math/rand"
 	"sort"
@@ -248,6 +250,23 @@ func (c *Ctx) mcChunk(cfg *MCConfig, gs []*gast.Grammar, base int, rng *rand.Ran
 			}
 		}
 		diffs := compareModel(cfg.Compare, cs, r, m)
+		if cfg.Compare&CmpTrace != 0 && cs.os.Memo && !cfg.LR && !m.Capped && !r.Timeout && r.Died == "" {
+			// under Memoize(true) the block trace is decided against the model variant that caches every
+			// (expression, offset) result - value, end, bound labels - and replays nothing on a hit:
+			// exactly which blocks still run, in which order, seeing what
+			mc := ref.Run(cs.u.G, cs.in, ref.Opts{Entry: cs.entry, File: cs.os.File, AllowInvalid: cs.os.AllowInvalid, NoRecover: cs.os.NoRecover,
+				MaxExpr: cs.os.MaxExpr, MaxEvents: 4000, StepCap: 400000, MemoAll: true, Init: cs.os.Init})
+			if !mc.Capped {
+				if cfg.StalePS != "" {
+					maskPS(mc.Trace, r.Trace)
+				}
+				if d := traceDiff(mc.Trace, r.Trace); d != nil {
+					d.field = "memo-trace"
+					diffs = append(diffs, *d)
+				}
+				c.CovAdd("memoize_traces_decided_by_the_memo_model", 1)
+			}
+		}
 		if r.Dbg != nil {
 			c.CovAdd("debug_trace_lines_checked", r.Dbg.Lines)
 			if r.Dbg.PosBad != "" && cfg.Compare&CmpTrace != 0 {
@@ -276,6 +295,46 @@ func (c *Ctx) mcChunk(cfg *MCConfig, gs []*gast.Grammar, base int, rng *rand.Ran
 			if !mb.Capped && len(compareModel(cfg.Compare, cs, r, mb)) == 0 {
 				v.Sig = append(v.Sig, "F20-memo-predicate-labels")
 			}
+			if cs.u.G.UsesState {
+				// known finding F22: a memoized result is reused without the state changes made while it
+				// was computed; the observation (block trace included) equals the model variant that
+				// caches every (expression, offset) result the way Memoize(true) does
+				mc := ref.Run(cs.u.G, cs.in, ref.Opts{Entry: cs.entry, File: cs.os.File, AllowInvalid: cs.os.AllowInvalid, NoRecover: cs.os.NoRecover,
+					MaxExpr: cs.os.MaxExpr, MaxEvents: 4000, StepCap: 400000, MemoAll: true, Init: cs.os.Init})
+				if cfg.StalePS != "" && cfg.Compare&CmpTrace != 0 {
+					maskPS(mc.Trace, r.Trace) // known finding F02 is masked here as everywhere else
+				}
+				if !mc.Capped && len(compareModel(cfg.Compare, cs, r, mc)) == 0 && (cfg.Compare&CmpTrace == 0 || traceDiff(mc.Trace, r.Trace) == nil) {
+					v.Sig = append(v.Sig, "F22-memo-state-not-replayed")
+				} else if os.Getenv("PV_DEBUG_F22") != "" {
+					fmt.Fprintf(os.Stderr, "F22-DEBUG capped=%t diffs=%v tracediff=%v\n  grammar %s\n  input %q\n  model trace %q\n  real trace %q\n", mc.Capped, compareModel(cfg.Compare, cs, r, mc), traceDiff(mc.Trace, r.Trace), gast.Short(cs.u.G), cs.in, mc.Trace, r.Trace)
+				}
+			}
+		}
+		if cfg.LR && cs.os.Memo {
+			// known finding F06 (Memoize variant, see c08Sig): errors recorded in a discarded growth
+			// attempt are lost when the memoized result is used again; nothing else differs
+			only := true
+			for _, x := range diffs {
+				if x.field != "ok" && x.field != "errors" {
+					only = false
+				}
+			}
+			want := errMsgs(cs.os.File, m)
+			i := 0
+			for _, e := range r.Errs {
+				for i < len(want) && want[i] != e.Msg {
+					i++
+				}
+				if i == len(want) {
+					only = false
+					break
+				}
+				i++
+			}
+			if only && len(r.Errs) < len(want) {
+				v.Sig = append(v.Sig, "F06-lr-memo-lost-error")
+			}
 		}
 		if cfg.LR && !cs.os.Memo {
 			// known finding F06 (leader-memo variant): the observation equals, field by field, what
@@ -283,7 +342,14 @@ func (c *Ctx) mcChunk(cfg *MCConfig, gs []*gast.Grammar, base int, rng *rand.Ran
 			mb := ref.Run(cs.u.G, cs.in, ref.Opts{Entry: cs.entry, File: cs.os.File, AllowInvalid: cs.os.AllowInvalid, NoRecover: cs.os.NoRecover,
 				MaxExpr: cs.os.MaxExpr, MaxEvents: 4000, StepCap: 400000, LR: true, LRKeepSeeds: true, Init: cs.os.Init})
 			if !mb.Capped && len(compareModel(cfg.Compare, cs, r, mb)) == 0 {
-				v.Sig = append(v.Sig, "F06-lr-memo-lost-error")
+				// what the kept result loses: errors (F06) and/or state changes (F22)
+				for _, x := range diffs {
+					if x.field == "finalstate" {
+						v.Sig = append(v.Sig, "F22-memo-state-not-replayed")
+					} else {
+						v.Sig = append(v.Sig, "F06-lr-memo-lost-error")
+					}
+				}
 			}
 		}
 		c.Report(v)
@@ -408,6 +474,13 @@ func compareModel(mask int, cs *mcCase, r *mon.Result, m *ref.Result) []diff {
 	}
 	if mask&CmpEnd != 0 && !m.Panicked && r.End != m.End {
 		ds = append(ds, diff{"end", m.End, r.End})
+	}
+	if mask&CmpTrace != 0 && cs.os.Memo {
+		// under Memoize the trace legitimately has fewer events than the model's; what every action
+		// event still must satisfy by itself: pos == posfn(offset) and text == input[offset:offset+len]
+		if d := traceSelfConsistent(cs.in, r.Trace); d != nil {
+			ds = append(ds, *d)
+		}
 	}
 	if mask&CmpTrace != 0 && !cs.os.Memo {
 		if d := traceDiff(m.Trace, r.Trace); d != nil {
@@ -666,4 +739,46 @@ func maskPS(want, got []string) int {
 		}
 	}
 	return n
+}
+
+// traceSelfConsistent checks the action events of a trace against the input alone.
+func traceSelfConsistent(in []byte, trace []string) *diff {
+	var line, col []int
+	for i, ev := range trace {
+		if !strings.HasPrefix(ev, "A|") {
+			continue
+		}
+		f := strings.SplitN(ev, "|", 6)
+		if len(f) < 6 {
+			continue
+		}
+		off, err := strconv.Atoi(f[2])
+		if err != nil || off < 0 || off > len(in) {
+			return &diff{"trace-pos", "an offset inside the input", fmt.Sprintf("event %d: %s", i, ev)}
+		}
+		// the quoted text may itself contain '|': unquote the longest quoted prefix of the rest
+		rest := strings.SplitN(ev, "|", 5)[4]
+		q, err := strconv.QuotedPrefix(rest)
+		if err != nil {
+			continue
+		}
+		text, err := strconv.Unquote(q)
+		if err != nil {
+			continue
+		}
+		if line == nil {
+			line, col = ref.Positions(in)
+		}
+		want := fmt.Sprintf("%d:%d", line[off], col[off])
+		if line[off] == 0 {
+			want = "a rune boundary"
+		}
+		if f[3] != want {
+			return &diff{"trace-pos", fmt.Sprintf("event %d at offset %d: pos %s", i, off, want), fmt.Sprintf("event %d: %s", i, ev)}
+		}
+		if off+len(text) > len(in) || string(in[off:off+len(text)]) != text {
+			return &diff{"trace-text", fmt.Sprintf("event %d at offset %d: text = input[%d:%d]", i, off, off, off+len(text)), fmt.Sprintf("event %d: %s", i, ev)}
+		}
+	}
+	return nil
 }
